@@ -3,6 +3,7 @@
 #   ./check.sh setup                 build the orchestrator and warm the build cache
 #   ./check.sh <id> quick|thorough   run one property check (rebuilds the worlds from /repo's working tree)
 #   ./check.sh replay <file>         replay a violation file against the current tree
+#   ./check.sh selftest [ids]        determinism self-test (same seed => same event log, any worker count / GOMAXPROCS)
 # Exit codes: 0 held / 1 VIOLATION (replays) / 2 build, budget or harness trouble.
 set -u
 cd "$(dirname "$0")"
@@ -22,6 +23,10 @@ case "${1:-}" in
     # warm the build cache (plain and race worlds) so that quick checks stay quick
     "$BIN" warm || true
     exit 0 ;;
+  selftest)
+    build_orch
+    shift
+    exec "$BIN" selftest "$@" ;;
   replay)
     [ -x "$BIN" ] || build_orch
     exec "$BIN" replay "$2" ;;
